@@ -33,9 +33,7 @@ def r01_1(ctx: Ctx, it) -> dict:
         ctx.instance("R01.1", fi.where(), f"{path}: {len(alts)} top-level alternative(s); shape {S.show(sh, 160)}")
         unk = S.has_unk(sh)
         if unk:
-            ctx.violation("R01.1", path, "unanalysable fragment: " + unk[0], fi.where(),
-                          f"{path}: a fragment of the output could not be given a shape ({unk[0]}); "
-                          "brace balance cannot be established")
+            ctx.gap("R01.1", f"{path}: a fragment of the output could not be given a shape ({unk[0]}); brace balance cannot be established")
             continue
         for a in alts:
             heads = S.heads(a, 8)
@@ -108,7 +106,7 @@ def r01_2(ctx: Ctx, it) -> None:
                           f"{short}: \\trowd count {_poly(tr)} != \\row count {_poly(rw)}")
         unk = S.has_unk(sh2)
         if unk:
-            ctx.violation("R01.2", short, "unanalysable: " + unk[0], f2.where(), f"{short}: {unk[0]}")
+            ctx.gap("R01.2", f"{short}: {unk[0]}")
     # (c) who may emit row words: string literals containing them exist only in the row emitters
     n = 0
     for fi2 in pm.iter_funcs():
